@@ -1,10 +1,89 @@
 import PewDriver.Util
+import PewModel.CsvDir
 open Lean
 namespace PewDriver.C04
-open PewDriver
+open PewDriver Pew.CsvDir
 
-def handle (op : String) (_req : Json) : R Json := do
+def parseVendor (s : String) : R Vendor :=
+  match s with
+  | "nu" => pure .nu
+  | "ldr" => pure .ldr
+  | "tofwerk" => pure .tofwerk
+  | "generic" => pure .generic
+  | _ => throw s!"bad vendor {s}"
+
+def vendorName : Vendor → String
+  | .nu => "nu" | .ldr => "ldr" | .tofwerk => "tofwerk" | .generic => "generic"
+
+def parseEntry (j : Json) : R (Entry V) := do
+  let name ← getStr j "name"
+  let isFile ← getBool j "isFile"
+  let names ← getList asStr j "names"
+  let rows ← getList (asList (asOpt asRat)) j "rows"
+  pure { name := name, isFile := isFile, line := { names := names, rows := rows } }
+
+def jV : V → Json := jOpt jRat
+
+def jImage (img : Image V) : Json :=
+  jObj [("names", jList jStr img.names), ("lines", jList (jList (jList jV)) img.lines)]
+
+def jParams (p : Params) : Json :=
+  jList (fun (x : String × List PVal) =>
+    jObj [("name", jStr x.1),
+          ("vals", jList (fun (v : PVal) => jObj [("val", jV v.val), ("margin", jV v.margin)]) x.2)]) p
+
+def jResult : Option (Image V × Params) → Json
+  | none => jObj [("raises", jStr "ValueError")]
+  | some (img, p) => jObj [("image", jImage img), ("params", jParams p)]
+
+def isNanV (x : V) : Bool := x.isNone
+
+def pairwiseDistinct (l : List (List Int)) : Bool :=
+  match l with
+  | [] => true
+  | x :: xs => !xs.contains x && pairwiseDistinct xs
+
+def jChars (l : List Char) : Json := jStr (String.ofList l)
+
+def handle (op : String) (req : Json) : R Json := do
   match op with
+  | "c04.load" =>
+    let vs ← getStr req "vendor"
+    let entries ← getList parseEntry req "entries"
+    let pi ← getList asNat req "pi"
+    let v ← if vs == "auto" then pure (autodetect entries) else parseVendor vs
+    let acc := accepted v entries
+    let mech := load isNanV readParams v timegm entries pi
+    let spec := specLoad isNanV readParams v entries
+    -- hypotheses of the theorems: distinct keys, every task completes, parsable stamps, one header
+    let injective := pairwiseDistinct (acc.map (fun e => sortKey v timegm e.name))
+      && pairwiseDistinct (acc.map (fun e => acqKey v e.name))
+    let covers := (List.range acc.length).all (fun i => pi.contains i)
+    let stamps := v != .tofwerk || acc.all (fun e => validStampB (stampFields e.name.toList))
+    let hkey := acc.all (fun p => acc.all (fun q =>
+      keyLe (sortKey v timegm p.name) (sortKey v timegm q.name) == keyLe (acqKey v p.name) (acqKey v q.name)))
+    let header := match acc with
+      | [] => true
+      | e :: es => es.all (fun x => x.line.names == e.line.names)
+    pure (jObj [("vendor", jStr (vendorName v)), ("model", jResult mech), ("spec", jResult spec),
+                ("accepted", jList jStr (acc.map (·.name))),
+                ("order", jList jStr ((byRank (fun e => acqKey v e.name) acc).map (·.name))),
+                ("hyp", jBool (injective && covers && stamps && header && hkey))])
+  | "c04.names" =>
+    let names ← getList asStr req "names"
+    pure (jObj [("model", jList (fun (n : String) =>
+      let s := n.toList
+      jObj [("name", jStr n),
+            ("nu", jOpt jChars (nuGroup s)),
+            ("ldr", jOpt jChars (ldrGroup s)),
+            ("tofwerk", jOpt (fun (g : List Char × List Char × List Char × List Char) =>
+                jChars (g.1 ++ '-' :: g.2.1 ++ 'h' :: g.2.2.1 ++ 'm' :: g.2.2.2 ++ ['s'])) (tofwerkGroup s)),
+            ("generic", jBool (containsCsv s)),
+            ("hidden", jBool (hidden n)),
+            ("stem", jChars (stem s)),
+            ("numkey", jInt (stemDigitsKey s)),
+            ("stamp", jList jNat (stampFields s)),
+            ("timegm", jInt (timegm (stampFields s)))]) names)])
   | _ => throw s!"unknown op {op}"
 
 end PewDriver.C04
